@@ -1275,6 +1275,22 @@ func (ex *Exec) doConvert(s *State, in *ssa.Convert) Val {
 			}
 		}
 		return x
+	case fs.IsBV() && ts == SStr:
+		// string(rune) / string(integer): the UTF-8 encoding of the code
+		// point. Exact for 1- and 2-octet encodings; for larger (or invalid)
+		// code points only the length (3 or 4 octets) and the lead octet
+		// range are stated.
+		c := BVConv(ex.asScalar(x), 64, !isUnsigned(from))
+		r := s.declare(ex.g.fresh("runestr"), SStr)
+		lit := func(v uint64) Term { return BVLit(v, 64) }
+		b8 := func(t Term) Term { return BVConv(t, 8, false) }
+		one := And(Eq(StrLen(r), lit(1)), Eq(StrAt(r, lit(0)), b8(c)))
+		two := And(Eq(StrLen(r), lit(2)),
+			Eq(StrAt(r, lit(0)), b8(App(SBV(64), "bvor", lit(0xC0), App(SBV(64), "bvlshr", c, lit(6))))),
+			Eq(StrAt(r, lit(1)), b8(App(SBV(64), "bvor", lit(0x80), App(SBV(64), "bvand", c, lit(0x3F))))))
+		more := And(Or(Eq(StrLen(r), lit(3)), Eq(StrLen(r), lit(4))), BVUle(BVLit(0xE0, 8), StrAt(r, lit(0))))
+		s.assume(Ite(BVUlt(c, lit(0x80)), one, Ite(BVUlt(c, lit(0x800)), two, more)))
+		return Scalar{r}
 	case fs == ts:
 		return x
 	}
@@ -1560,7 +1576,26 @@ func (ex *Exec) doLookup(s *State, in *ssa.Lookup) Val {
 	return Scalar{StrAt(st, idx)}
 }
 
+// guardMapWrite: a map stored in a guarded field is part of the guarded data;
+// inserting into it or deleting from it needs the write lock (C29).
+func (ex *Exec) guardMapWrite(s *State, mv ssa.Value) {
+	ld, ok := mv.(*ssa.UnOp)
+	if !ok {
+		return
+	}
+	fa, ok := ld.X.(*ssa.FieldAddr)
+	if !ok {
+		return
+	}
+	pv, ok := ex.val(s, fa).(PtrV)
+	if !ok || len(pv.Path) == 0 {
+		return
+	}
+	ex.guardCheck(s, pv.Base, pv.Root, pv.Path, true)
+}
+
 func (ex *Exec) mapUpdate(s *State, in *ssa.MapUpdate) {
+	ex.guardMapWrite(s, in.Map)
 	mt := in.Map.Type().Underlying().(*types.Map)
 	m := ex.scalar(s, in.Map)
 	k := ex.scalar(s, in.Key)
